@@ -181,6 +181,16 @@ def rule_r3(rep, repo):
     scaled = []
     n_use = 0
     seen_writers = set()
+    # a guarded store moved into a module-level helper that receives the transform (`_fix_b(self, x)`) is read inlined
+    from gridlint import inline
+    _inl = {}
+
+    def inlined(f):
+        if f.qual not in _inl:
+            helpers = {g.name: g.node for g in repo.funcs.values() if g.module == f.module and g.cls is None
+                       and g.parent is None and not g.is_lambda and isinstance(g.node, ast.FunctionDef)}
+            _inl[f.qual] = inline.inline_calls(f.node, helpers) if helpers else f.node
+        return _inl[f.qual]
     for k in classes:
         ci = repo.classes[k]
         # --- writers of fields outside __init__ (own and inherited methods: the base class's
@@ -194,7 +204,7 @@ def rule_r3(rep, repo):
             already = (f.qual, "seen") in seen_writers
             if f.cls != k:
                 seen_writers.add((f.qual, "seen"))
-            for guards, stmt in _walk_with_guards(strip_docstring(f.node.body)):
+            for guards, stmt in _walk_with_guards(strip_docstring(inlined(f).body)):
                 tgts = []
                 if isinstance(stmt, ast.Assign):
                     tgts = stmt.targets
@@ -229,7 +239,7 @@ def rule_r3(rep, repo):
         setter_methods = [m for m, f in _e3.reachable_methods(repo, k).items()
                           if any(isinstance(s, ast.Assign) and any(
                               isinstance(t, ast.Attribute) and t.attr == fld for t in s.targets)
-                                 for s in ast.walk(f.node)) and m != "__init__"]
+                                 for s in ast.walk(inlined(f))) and m != "__init__"]
         for mname, f in ci.methods.items():
             if mname in setter_methods or mname == "__init__" or f.is_property:
                 continue
